@@ -181,12 +181,32 @@ def all_snippets(pt) -> List[Tuple[str, Callable]]:
     add("ImportScratchValue(0,0)", lambda: pt.ImportScratchValue(0, 0))
     add("ImportScratchValue(15,255)", lambda: pt.ImportScratchValue(15, 255))
     add("ImportScratchValue(dyn,1)", lambda: pt.ImportScratchValue(dynU(0), 1))
+    # full boundary grid of the two immediates (constant / run-time transaction index x constant / run-time slot)
+    for ti in (-1, 0, 1, 15, 16, 255, 256, "dyn"):
+        for sl in (-1, 0, 1, 254, 255, 256, 257, 300, 65536, "dyn"):
+            if (ti, sl) in ((0, 0), (15, 255), ("dyn", 1)):
+                continue
+            add("ImportScratchValue(%s,%s)" % (ti, sl), (lambda ti=ti, sl=sl: pt.ImportScratchValue(dynU(0) if ti == "dyn" else ti, dynU(1) if sl == "dyn" else sl)))
+    for k in (-1, 1, 15, 16, 255, 256):
+        add("GeneratedID(%d)" % k, (lambda k=k: pt.GeneratedID(k)))
     add("GeneratedID(0)", lambda: pt.GeneratedID(0))
     add("GeneratedID(dyn)", lambda: pt.GeneratedID(dynU(0)))
 
     # ---- scratch
     for k in (0, 255):
         add("ScratchVar(slot=%d)" % k, (lambda k=k: (lambda v: pt.Seq(v.store(I(1)), v.load()))(pt.ScratchVar(pt.TealType.uint64, k))))
+    for k in (-1, 1, 254, 256, 257, 300, 65536):
+        add("ScratchVar(slot=%d)" % k, (lambda k=k: (lambda v: pt.Seq(v.store(I(1)), v.load()))(pt.ScratchVar(pt.TealType.uint64, k))))
+        add("ScratchSlot(%d).store/load" % k, (lambda k=k: (lambda sl: pt.Seq(sl.store(I(1)), sl.load(pt.TealType.uint64)))(pt.ScratchSlot(k))))
+    for k in (-1, 1, 16, 65536):
+        add("Arg(%d)" % k, (lambda k=k: pt.Arg(k)))
+    for k in (-1, 1, 14):
+        add("Gtxn[%d].fee" % k, (lambda k=k: pt.Gtxn[k].fee()))
+        add("Gitxn[%d].fee" % k, (lambda k=k: pt.Gitxn[k].fee()))
+        add("Gtxn[%d].application_args[255]" % k, (lambda k=k: pt.Gtxn[k].application_args[255]))
+    for k in (-1, 1, 254):
+        add("Txn.application_args[%d]" % k, (lambda k=k: pt.Txn.application_args[k]))
+        add("InnerTxn.logs[%d]" % k, (lambda k=k: pt.InnerTxn.logs[k]))
     add("ScratchVar.index", lambda: (lambda v: pt.Seq(v.store(I(1)), v.index()))(pt.ScratchVar(pt.TealType.uint64)))
     add("DynamicScratchVar", lambda: (lambda d, v: pt.Seq(v.store(I(1)), d.set_index(v), d.store(I(2)), d.load()))(pt.DynamicScratchVar(pt.TealType.uint64), pt.ScratchVar(pt.TealType.uint64)))
 
